@@ -143,6 +143,13 @@ func child(args []string) {
 			say(fmt.Sprintf("STOREERR %d %v", k, err))
 			os.Exit(4)
 		}
+		if mode == "instantkill" && k == to-1 {
+			// the kill lands at the very instant the store is acknowledged: nothing runs between the return of
+			// StoreSignedVAA and the SIGKILL (no report, no lookup that would wait for pending writes; the parent
+			// runs this child with GOMAXPROCS=1 so that no other goroutine runs in between either)
+			syscall.Kill(os.Getpid(), syscall.SIGKILL)
+			select {}
+		}
 		say(fmt.Sprintf("ACK %d", k))
 		if got, err := d.GetSignedVAABytes(idOf(h[k].ID)); err != nil || !bytes.Equal(got, want) {
 			say(fmt.Sprintf("READBACK-BAD after store %d: lookup in the same process returned err=%v, %d bytes; want the %d bytes just acknowledged", k, err, len(got), len(want)))
@@ -417,6 +424,9 @@ func runChildAt(self, dir string, from, to int, mode string, bulk string, strace
 	}
 	var buf bytes.Buffer
 	cmd.Stdout = &buf
+	if mode == "instantkill" {
+		cmd.Env = append(os.Environ(), "GOMAXPROCS=1")
+	}
 	err := cmd.Run()
 	raw = buf.String()
 	acks = from
@@ -621,6 +631,26 @@ func main() {
 				pos = next
 			}
 		})
+	}
+	// ---- family 1c: the kill lands at the instant of the acknowledgement (the child kills itself as the very next
+	// thing after StoreSignedVAA returned nil, single P): "acknowledged" must already mean "will be found"
+	for _, kind := range []string{"", "edge"} {
+		hk := history(kind)
+		for k := 1; k <= len(hk); k++ {
+			k, kind := k, kind
+			jobs = append(jobs, func() {
+				dir := newDir()
+				defer os.RemoveAll(dir)
+				acks, killed, _, raw := runChild(self, dir, 0, k, "instantkill", kind, 0)
+				atomic.AddInt64(&kills, 1)
+				sc := scenario{Name: "kill at the instant of the acknowledgement", Steps: []string{fmt.Sprintf("history %q: stores 0..%d, SIGKILL as the next instruction after store %d returned nil", kind, k, k-1)}, Acked: k}
+				if !killed || acks != k-1 {
+					r.Violation("child did not run as scripted (store or open failed before the kill)", raw, sc)
+					return
+				}
+				check(self, dir, kind, k, nil, sc)
+			})
+		}
 	}
 	// ---- family 2: strace-injected kills at every syscall index N of a phase
 	// measure the largest useful N per phase with a dry run under strace -c
